@@ -2984,6 +2984,8 @@ def simplify_collection_unpacks(source: str) -> str:
                 or (
                     core.match_template(elt, ast.Starred(value=ast.Set))
                     and len(elt.value.elts) <= 1
+                    # {*a} removes duplicates (and the order) of a
+                    and not any(isinstance(inner, ast.Starred) for inner in elt.value.elts)
             )):
                 elts.extend(elt.value.elts)
                 replacements = True
